@@ -122,6 +122,11 @@ def _work(job):
             for t in tags:
                 if t in KNOWN_BY_TAG and kinds <= KNOWN_BY_TAG[t][1]:
                     kf = KNOWN_BY_TAG[t][0]
+            if kf is None and "continued-after-provisional-end" in tags and kinds <= {"event-data", "final-data"}:
+                kf = "F-01f"
+            if kf is None and "continued-after-provisional-end" in tags and ({"out-of-space", "oos-by-action"} & set(tags)):
+                # the early `delete` / assignment decides whether a later append still fits: the difference shows as another route
+                kf = "F-01f"
             if kf is None and {"do-action-after-provisional-end", "oos-by-action"} <= set(tags):
                 # F-01f again: a `delete` / assignment performed too early decides whether a later append still fits, so the difference
                 # shows as a different route (out-of-space or not) rather than as different data
